@@ -161,7 +161,7 @@ def render_value(v, uid, style, via=()):
     return f" = {sp('field', style // 2, via)}({', '.join(args)})"
 
 
-def render_class(i, c, ind="    ", via=()):
+def render_class(i, c, ind="    ", via=(), names=None):
     """c = {dec, body, hw, bases, style[, post]}; returns (lines, init_line_offset or None).  via: helper names that must be spelled bare."""
     lines = []
     style = c.get("style", 0)
@@ -181,8 +181,9 @@ def render_class(i, c, ind="    ", via=()):
             lines.append(f"@{dn}({', '.join(args)})")
         else:
             lines.append(f"@{dn}")
-    bases = ", ".join(f"K{b}" for b in c["bases"])
-    lines.append(f"class K{i}({bases}):" if bases else f"class K{i}:")
+    nm = (lambda j: names[j]) if names else (lambda j: f"K{j}")      # names: a class may be given the name of another (re-binding shapes)
+    bases = ", ".join(nm(b) for b in c["bases"])
+    lines.append(f"class {nm(i)}({bases}):" if bases else f"class {nm(i)}:")
     body = []
     for k, s in enumerate(c["body"]):
         uid = 1000 + 100 * i + k
@@ -457,7 +458,7 @@ def cpython_view(src, n):
 _counter = itertools.count()
 
 
-def render_xpkg(table, where, name, via=(), how="from"):
+def render_xpkg(table, where, name, via=(), how="from", explicit=False):
     """Cross-package layout: where[i] in 'a','b','c' names the package <name><letter> whose module `m` defines class i; a class may
     only derive from classes of its own or an EARLIER package (a <- b <- c), which real Python could import in that order.
     Each package gets its own import style for the bases it takes from earlier packages (by package letter):
@@ -471,7 +472,7 @@ def render_xpkg(table, where, name, via=(), how="from"):
         lines = header(table, via, f"{pkg}._compat", how)
         mine = [i for i in range(len(table)) if where[i] == letter]
         need = sorted({b for i in mine for b in table[i]["bases"] if where[b] != letter})
-        style = (table[mine[0]].get("style", 0) + len(need)) % 3
+        style = (table[mine[0]].get("style", 0) + len(need)) % (2 if explicit else 3)
         stars = []
         for b in need:
             src_pkg = name + where[b]
@@ -526,7 +527,7 @@ def layout_of(table, split):
         for letter in letters:
             mine = [i for i in range(n) if where[i] == letter]
             need = sorted({b for i in mine for b in table[i]["bases"] if where[b] != letter})
-            style = (table[mine[0]].get("style", 0) + len(need)) % 3
+            style = (table[mine[0]].get("style", 0) + len(need)) % (2 if (isinstance(split, dict) and split.get("order")) else 3)
             stmts, stars = std_stmts(table, via, idx[letter] + 2, how), []
             for b in need:
                 q = idx[where[b]]
@@ -665,15 +666,16 @@ def griffe_view(ctx, table, hw_line_single, split, load=None):
     via, how = via_parts(split)
     if imp == "xpkg":
         base = base / f"x{k}"
-        pkgs, hw_line, locate = render_xpkg(table, where, name, via, how)
+        wrong = isinstance(split, dict) and bool(split.get("order"))
+        pkgs, hw_line, locate = render_xpkg(table, where, name, via, how, explicit=wrong)
         for pkg, mods in pkgs.items():
             (base / pkg).mkdir(parents=True)
             for m, text in mods.items():
                 (base / pkg / f"{m}.py").write_text(text)
         with Watchdog():
             loader = griffe.GriffeLoader(search_paths=[str(base)], **kwargs)
-            for pkg in pkgs:
-                loader.load(pkg)
+            for letter in load_order(split):
+                loader.load(name + letter)
         get = lambda i: loader.modules_collection[locate(i)]  # noqa: E731
         full = locate
     else:
@@ -953,7 +955,41 @@ def rand_xsplit(rng, table):
         c1 = rng.randint(1, max(1, n - 1))
     c2 = rng.randint(c1, n) if rng.random() < 0.5 else n
     out = {"where": ["a" if i < c1 else ("b" if i < c2 else "c") for i in range(n)], "imp": "xpkg"}
-    add_via(rng, out)
+    letters = sorted(set(out["where"]))
+    if len(letters) > 1 and rng.random() < 0.35:
+        # WRONG-order loads: a package is loaded before the package its bases come from (on-demand loading); explicit imports only
+        order = letters[:]
+        while order == letters:
+            rng.shuffle(order)
+        out["order"] = order
+    else:
+        add_via(rng, out)
+    return out
+
+
+def load_order(split):
+    where, _ = split_parts(split)
+    return (split.get("order") if isinstance(split, dict) else None) or sorted(set(where))
+
+
+def event_mros(table, split, mros):
+    """The MRO Griffe can compute for each class when ITS package's on_package_loaded fires: over the classes of the packages
+    loaded so far (CPython's linearisation of the hierarchy with the other bases dropped).  `mros` itself for dependency-order loads."""
+    where, imp = split_parts(split)
+    if imp != "xpkg" or not (isinstance(split, dict) and split.get("order")):
+        return mros
+    order = load_order(split)
+    pos = {letter: k for k, letter in enumerate(order)}
+    out = [None] * len(table)
+    for k in range(len(order)):
+        vis = {i for i in range(len(table)) if pos[where[i]] <= k}
+        sub = [{**c, "bases": [b for b in c["bases"] if b in vis] if i in vis else []} for i, c in enumerate(table)]
+        m = cpython_mros(sub)
+        if m is None:
+            return None
+        for i in vis:
+            if pos[where[i]] == k:
+                out[i] = m[i]
     return out
 
 
@@ -966,7 +1002,7 @@ def walk_events(rng, table, split):
     if where is None:
         return [list(range(n))]
     if imp == "xpkg":
-        return [[i for i in range(n) if where[i] == letter] for letter in sorted(set(where))]
+        return [[i for i in range(n) if where[i] == letter] for letter in load_order(split)]
     mods = sorted(set(where))
     rng.shuffle(mods)
     return [[i for m in mods for i in range(n) if where[i] == m]]
@@ -1055,18 +1091,25 @@ def check_tables(ctx, tables, stream, use_model=True, mirror=False, loads=None, 
                 split = rand_xsplit(ctx.rng, table)
             elif r < 0.35:
                 split = rand_split(ctx.rng, table)
+        if isinstance(split, dict) and split.get("order") and event_mros(table, split, mros) is None:
+            del split["order"]
         prepared.append((ti, table, mros, split, load, walk_events(ctx.rng, table, split)))
+    evm = [event_mros(t, sp, m) for _, t, m, sp, _, _ in prepared]      # the MROs computable when each class is walked (wrong-order loads: shorter)
+    evres = {}
     masked = {}     # index in prepared -> model result for the table as Griffe reads it under finding F10 (decorators of shadowed modules unrecognised)
     if use_model:
         encs = [enc_table(t, m) for _, t, m, _, _, _ in prepared]
         shadow = [(k, shadowed(t, sp)) for k, (_, t, _, sp, _, _) in enumerate(prepared)]
         shadow = [(k, f) for k, f in shadow if f]
-        allres = ctx.model(encs + [enc_session(e[1], range(len(e[1])), ev) for e, (_, _, _, _, _, ev) in zip(encs, prepared)]
+        wrongs = [k for k, (_, _, m, _, _, _) in enumerate(prepared) if evm[k] != m]
+        allres = ctx.model(encs + [enc_session(enc_table(t, evm[k])[1], range(len(t)), ev) for k, (_, t, _, _, _, ev) in enumerate(prepared)]
                            + [["layout", *layout_of(t, sp)] for _, t, _, sp, _, _ in prepared]
-                           + [enc_table(mask_table(prepared[k][1], py_flags(prepared[k][1], prepared[k][3])), prepared[k][2]) for k, f in shadow])
+                           + [enc_table(mask_table(prepared[k][1], py_flags(prepared[k][1], prepared[k][3])), prepared[k][2]) for k, f in shadow]
+                           + [enc_table(prepared[k][1], evm[k]) for k in wrongs])
         np_ = len(prepared)
         mres, sres, lres = allres[:np_], allres[np_:2 * np_], allres[2 * np_:3 * np_]
         masked = {k: r for (k, _), r in zip(shadow, allres[3 * np_:])}
+        evres = dict(zip(wrongs, allres[3 * np_ + len(shadow):]))
     else:
         mres = sres = lres = [None] * len(prepared)
     for pk, ((ti, table, mros, split, load, events), mr, sr, lr) in enumerate(zip(prepared, mres, sres, lres)):
@@ -1123,7 +1166,27 @@ def check_tables(ctx, tables, stream, use_model=True, mirror=False, loads=None, 
                                 {"model_accepts": accepted, "cpython": why or "ok"}, case)
         f10 = shadowed(table, split)
         flags = py_flags(table, split)
-        if use_model:
+        wrong = evm[pk] != mros
+        # classes whose own synthesis (or that of a class they can inherit the constructor from) ran with an incomplete MRO:
+        # what Griffe presents for them depends on the order of the loads and is compared with the model only
+        stale = {i for i in range(len(table)) if evm[pk][i] != mros[i]}
+        # an inherited constructor is looked up when asked for (final MRO): it is order-dependent only through a provider that was
+        # synthesised with an incomplete MRO
+        stale_p = {i for i in range(len(table)) if any(j in stale and table[j]["dec"] is not None and table[j]["hw"] is None for j in mros[i])}
+        if wrong:
+            ctx.observe("wrong-order loads: classes walked with an incomplete MRO", sum(1 for j in range(len(table)) if evm[pk][j] != mros[j]))
+        if use_model and wrong:
+            # Griffe's side of the model: members and labels as synthesised with the MRO of the event; the presented constructor is
+            # looked up along the FINAL MRO (Class.parameters is computed when asked for)
+            eper = evres[pk][2]
+            per = [list(x) for x in mr[2]]
+            for i in range(len(table)):
+                per[i][0], per[i][2] = eper[i][0], eper[i][2]
+                prov = next((j for j in [i] + mros[i] if eper[j][0][0] != "absent"), None)
+                mem = eper[prov][0] if prov is not None else None
+                per[i][5] = [[prov] if prov is not None else [], [] if mem is None else ([[100 + prov, "PK", 0]] if mem[0] == "handwritten" else mem[1])]
+            mr = [mr[0], mr[1], per, mr[3], mr[4]]
+        if use_model and not wrong:
             # what the extension (and the visitor) can see: the layout model (Model/C18_layout.v) vs the recorder extension,
             # and the layout predicate of this module vs the model
             m_flags = [[bool(r[0]), bool(r[2]), bool(r[3]), bool(r[4]), bool(r[5]), bool(r[6])] for r in lr]
@@ -1208,7 +1271,9 @@ def check_tables(ctx, tables, stream, use_model=True, mirror=False, loads=None, 
                 continue
             c_mem, c_isdc, c_pres = cv[i]
             # direct evaluation of the property: Griffe vs CPython
-            if c["dec"] is not None and c["hw"] is None:
+            if i in stale:
+                ctx.observe("outcome", "wrong-order load: walked with an incomplete MRO (compared with the model only)")
+            if c["dec"] is not None and c["hw"] is None and i not in stale:
                 ctx.count("direct_init_comparisons")
                 if norm_member(g_mem) != norm_member(c_mem):
                     fid = None
@@ -1225,8 +1290,10 @@ def check_tables(ctx, tables, stream, use_model=True, mirror=False, loads=None, 
                         ctx.observe("gap-free equal: params", len(c_mem[1]))
                         ctx.observe("gap-free equal: kw-only params", sum(1 for p in c_mem[1] if p[1] == "KO"))
             # the constructor presented for a class that inherits it (no __init__ of its own): Class.parameters vs inspect.signature(cls)
-            if c_mem[0] == "absent":
+            if c_mem[0] == "absent" and i not in stale_p:
                 ctx.count("direct_presented_comparisons")
+                if i in stale:
+                    ctx.observe("wrong-order load: inherited constructor read after the parent's package was loaded", "compared with inspect.signature")
                 kind = ("no constructor anywhere" if c_pres[0] is None else
                         ("inherited from a hand-written __init__" if table[c_pres[0]]["hw"] is not None else "inherited from a synthesised __init__"))
                 if len(mros[i]) > 1 and mros[i][0] != c_pres[0] and c_pres[0] is not None and len(c["bases"]) > 1:
@@ -1247,7 +1314,9 @@ def check_tables(ctx, tables, stream, use_model=True, mirror=False, loads=None, 
                     ctx.property_failure(case, {"class": i, "Class.parameters (after self)": g_pres, "inspect.signature(cls)": c_pres}, finding=fid)
                 else:
                     ctx.observe("presented constructor equal", kind)
-            if g_label != c_isdc:
+            if i in stale:
+                pass
+            elif g_label != c_isdc:
                 ctx.observe("outcome", "label differs")
                 ctx.property_failure(case, {"class": i, "griffe label": g_label, "is_dataclass": c_isdc}, finding="C18-F10" if (gaps is not None and i in tainted) else None)
             elif c_isdc and c["dec"] is None:
@@ -1369,6 +1438,122 @@ def replay_witnesses(ctx):
 MODIDX = {None: 0, "ma": 1, "mz": 2}
 
 
+def check_rebinding(ctx, n, use_model=True):
+    """Same-name re-binding: a @dataclass that extends an EARLIER binding of its own name - `class K0: ...; @dataclass class K0(K0)`, or
+    `from pkg.base import K0; @dataclass class K0(K0)` - optionally followed by a subclass of the new binding.  Valid Python; Griffe
+    resolves the base name in the final namespace of the module, i.e. to the class itself, Class.mro() raises ValueError (cycle) and
+    the extension goes on with an empty MRO (its fault path).  Griffe's side of the model is therefore the table of the re-bound
+    classes with empty MRO lists; CPython's the real hierarchy.  What is lost (fields and label of the earlier binding) is finding
+    C18-F12, accepted only when the model reproduces both sides."""
+    import griffe
+    cases = []
+    for _ in range(n):
+        t = rand_table(ctx.rng, maxn=3, quiet=True)
+        if len(t) < 2:
+            continue
+        # class 1 extends class 0 and takes its name; a third class (if any) extends the new binding under its own name
+        if ctx.rng.random() < 0.5:          # the earlier binding a plain class: nothing to inherit, both systems must agree
+            t[0] = {**t[0], "dec": None, "post": None,
+                    "body": [("attr", s[1], s[2], ("plain",) if s[3][0] == "field" else s[3]) if s[0] == "attr" else s for s in t[0]["body"] if not (s[0] == "attr" and s[2] == "kwonly")]}
+        t[1] = {**t[1], "bases": [0], "dec": t[1]["dec"] or (None, None), "hw": None, "post": None}
+        t = t[:3]
+        if len(t) == 3:
+            t[2] = {**t[2], "bases": [1], "hw": None}
+        mros = cpython_mros(t)
+        if mros is None:
+            continue
+        cases.append((t, mros, ctx.rng.choice(["same module", "imported"])))
+    if not cases:
+        return
+    res = ctx.model([enc_table(t, m) for t, m, _ in cases] + [enc_table(t[1:], [[] for _ in t[1:]]) for t, _, _ in cases]) if use_model else None
+    for k, (t, mros, shape) in enumerate(cases):
+        names = ["K0", "K0", "K2"][:len(t)]
+        src, _ = render(t)
+        k_id = next(_counter)
+        base = ctx.scratch / "rebind"
+        hdr = header(t)
+        body1 = [ln for i in range(1, len(t)) for ln in [""] + render_class(i, t[i], via=spell_via(t, ()), names=names)[0]]
+        body0 = [""] + render_class(0, t[0], via=spell_via(t, ()), names=names)[0]
+        case = {"table": case_json(t, None)["table"], "rebinding": shape, "source": None}
+        try:
+            if shape == "same module":
+                name = f"c18r{k_id}"
+                text = "\n".join(hdr + body0 + body1) + "\n"
+                base.mkdir(parents=True, exist_ok=True)
+                (base / f"{name}.py").write_text(text)
+                case["source"] = text
+                with Watchdog():
+                    pkg = griffe.load(name, search_paths=[str(base)])
+                get = lambda nme: pkg[nme]  # noqa: E731
+            else:
+                name = f"c18rp{k_id}"
+                (base / name).mkdir(parents=True)
+                (base / name / "__init__.py").write_text("")
+                (base / name / "base.py").write_text("\n".join(hdr + body0) + "\n")
+                imp = f"from {name}.base import K0" if k_id % 2 else "from .base import K0"
+                text = "\n".join(hdr + [imp] + body1) + "\n"
+                (base / name / "m.py").write_text(text)
+                case["source"] = f"# {name}/base.py\n" + "\n".join(hdr + body0) + f"\n# {name}/m.py\n" + text
+                with Watchdog():
+                    pkg = griffe.load(name, search_paths=[str(base)])
+                get = lambda nme: pkg["m"][nme]  # noqa: E731
+            gv = [read_class(get(names[i]), i, {}) for i in range(1, len(t))]
+        except Exception as e:  # noqa: BLE001
+            ctx.case(case, True)
+            ctx.tie_failure("harness", "griffe.load raised on a same-name re-binding", f"{type(e).__name__}: {e}", case)
+            ctx.property_failure(case, {"griffe.load raised": f"{type(e).__name__}: {e}"})
+            continue
+        cv, why = cpython_view(src, len(t))
+        ctx.case(case, True)
+        ctx.observe("stream", "same-name re-binding (the extension's fault path: Class.mro() raises)")
+        ctx.observe("re-binding shape", shape + (", earlier binding is a dataclass" if t[0]["dec"] is not None else ", earlier binding is a plain class")
+                    + (", subclass of the new binding" if len(t) == 3 else ""))
+        for i in range(1, len(t)):
+            g_mem, g_label, g_mro, g_pres, _ = gv[i - 1] + [None]
+            ctx.observe("re-binding: Class.mro()", "raises ValueError" if g_mro == "ValueError" else "computed")
+            # read_class takes the provider from the class NAME: K0 is class 1 here
+            if g_pres and g_pres[0] == 0:
+                g_pres = [1, g_pres[1]]
+            reproduced = None
+            if use_model:
+                real, sub = res[k], res[len(cases) + k]
+                m_g, _, m_glabel, _, _, m_gp, _, _ = sub[2][i - 1]
+                m_gp = dec_presented(m_gp)
+                if m_gp[0] is not None:
+                    m_gp[0] += 1                  # index in the sub-table -> class index
+                want = [m_g, bool(m_glabel), m_gp]
+                have = [norm_member(g_mem), g_label, g_pres]
+                if want != have:
+                    ctx.tie_failure("correspondence", "model with an empty MRO (the extension's fallback when Class.mro() raises) vs Griffe on a same-name re-binding",
+                                    {"class": i, "model": want, "impl": have}, case)
+                if cv is not None and (real[2][i][1] != norm_member(cv[i][0]) or bool(real[2][i][3]) != cv[i][1]):
+                    ctx.tie_failure("oracle", "py_init_member / py_is_dataclass (model) vs CPython on the hierarchy of a re-binding", {"class": i}, case)
+                reproduced = cv is not None and want == have
+            if cv is None:
+                ctx.observe("outcome", "CPython rejects the module")
+                break
+            c_mem, c_isdc, c_pres = cv[i]
+            own_init = t[i]["dec"] is not None and t[i]["dec"][0] is not False
+            differs = (own_init and norm_member(g_mem) != norm_member(c_mem)) or g_label != c_isdc or (c_mem[0] == "absent" and g_pres != c_pres)
+            ctx.count("direct_rebinding_comparisons")
+            if differs:
+                fid = None
+                if reproduced or not use_model:
+                    gaps = [bool(x) for x in real[2][i][4]] if use_model else py_gaps(t, mros, i)
+                    hit = [FINDINGS[j] for j, g in enumerate(gaps) if g and FINDINGS[j] not in REPAIRED_BY_MODE[current_mode()]]
+                    if use_model:
+                        # with the ancestors visible the model of Griffe agrees with CPython: the difference is what the lost bases carry
+                        r = real[2][i]
+                        lost = r[0] == r[1] and r[5] == r[6]
+                    else:
+                        lost = any(t[j]["dec"] is not None or t[j]["hw"] is not None for j in mros[i])
+                    fid = "C18-F12" if lost else (hit[0] if hit else None)
+                ctx.observe("outcome", "re-binding differs: " + (fid or "UNEXPLAINED"))
+                ctx.property_failure(case, {"class": i, "griffe": [g_mem, g_label, g_pres], "cpython": [c_mem, c_isdc, c_pres]}, finding=fid)
+            else:
+                ctx.observe("outcome", "re-binding equal (nothing to inherit from the earlier binding)")
+
+
 def check_histories(ctx, n, use_model=True, mirror=False):
     """Several versions of ONE package (same package and class names, different bodies) loaded one after the other through one
     shared griffe.load_extensions() result — what `griffe check` and any long-lived loader do.  Each version is compared with
@@ -1450,6 +1635,7 @@ def explore(ctx):
     check_tables(ctx, sd, "systematic decorator pairs")
     check_tables(ctx, sf, "systematic field forms")
     check_tables(ctx, [rand_diamond(ctx.rng) for _ in range(ctx.budget(250, 1500))], "random diamonds")
+    check_rebinding(ctx, ctx.budget(80, 400))
     check_tables(ctx, [rand_table(ctx.rng, maxn=4, quiet=True, initvar=0.3) for _ in range(ctx.budget(200, 1200))],
                  "cross-package: one loader, packages loaded in dependency order", layout="xpkg")
     n = ctx.budget(1500, 8000)
@@ -1482,6 +1668,7 @@ def search(ctx):
             return
         check_tables(ctx, [rand_diamond(ctx.rng) for _ in range(60)], "search: diamonds", use_model=False, mirror=True)
         check_tables(ctx, [rand_table(ctx.rng, maxn=4, quiet=True, initvar=0.3) for _ in range(60)], "search: cross-package", use_model=False, mirror=True, layout="xpkg")
+        check_rebinding(ctx, 40, use_model=False)
         if ctx.prop_failures or ctx.elapsed() > 500:
             return
 
@@ -1490,6 +1677,29 @@ def replay(ctx, data):
     case = data.get("failing_input") or {}
     if "table" not in case:
         print("replay names no input:", data.get("no_longer_checks"))
+        return 0
+    if case.get("rebinding"):
+        # same-name re-binding: the stored source is what Griffe was given (one module, or `# pkg/file` sections of a package)
+        import griffe, re, subprocess
+        print(case["source"])
+        base = ctx.scratch / "replay"
+        parts = re.split(r"^# (\S+\.py)\n", case["source"], flags=re.M)
+        if len(parts) == 1:
+            base.mkdir(parents=True, exist_ok=True)
+            (base / "c18replay.py").write_text(case["source"])
+            obj = griffe.load("c18replay", search_paths=[str(base)])
+        else:
+            for path, text in zip(parts[1::2], parts[2::2]):
+                (base / path).parent.mkdir(parents=True, exist_ok=True)
+                (base / path).write_text(text)
+                pkgname = path.split("/")[0]
+            (base / pkgname / "__init__.py").write_text("")
+            obj = griffe.load(pkgname, search_paths=[str(base)])["m"]
+        for nme in ("K0", "K2"):
+            if nme in obj.members:
+                print(nme, "griffe:", read_class(obj[nme], 0, {})[:4])
+        print("# CPython executes the same hierarchy under distinct names; see the `cpython` part of the stored detail:", data.get("detail"))
+        subprocess.run(["rm", "-rf", str(ctx.scratch)])
         return 0
     def untable(tj):
         return [{"dec": None if c["dec"] is None else tuple(c["dec"]), "body": [detuple(s) for s in c["body"]], "hw": c["hw"], "bases": c["bases"],
